@@ -18,6 +18,13 @@ type evAlpha struct {
 	Advance []int
 	Errors  bool // getter error answers
 	Prefix  bool // getter prefix answers
+	// SoftHead: a held trusted-head request may be answered with a soft-failing header (honest tip or
+	// the attacker's header 2 above the trusted head), as the Exchange does for unverifiable heads
+	SoftHead bool
+	NoSkips  bool
+	// LagHead: a held trusted-head request may be answered with the header gossip has already
+	// delivered (the current top) or the one right above the trusted head
+	LagHead bool
 }
 
 func enabledEvents(w *SWorld, a evAlpha) []Ev {
@@ -31,6 +38,17 @@ func enabledEvents(w *SWorld, a evAlpha) []Ev {
 			}
 		case "head":
 			evs = append(evs, Ev{K: "answer", A: "tip"})
+			if a.LagHead && o.Trusted != nil {
+				if t := w.top(); t > o.Trusted.Ht {
+					evs = append(evs, Ev{K: "answer", A: "height", D: int(t)})
+				}
+				if t := o.Trusted.Ht + 1; t != w.top() && int(t) <= w.Cfg.N {
+					evs = append(evs, Ev{K: "answer", A: "height", D: int(t)})
+				}
+			}
+			if a.SoftHead && o.Trusted != nil {
+				evs = append(evs, Ev{K: "answer", A: "soft-forged", D: 2}, Ev{K: "answer", A: "soft", D: w.Cfg.N})
+			}
 		default:
 			evs = append(evs, Ev{K: "answer", A: "honest"})
 		}
@@ -58,7 +76,18 @@ func enabledEvents(w *SWorld, a evAlpha) []Ev {
 			Ev{K: "deliver", A: "future"})
 	}
 	if a.Head {
-		evs = append(evs, Ev{K: "headcall"})
+		pendingHead := false
+		for _, c := range w.Calls {
+			if c.Kind == "headcall" && !c.call.Done() {
+				pendingHead = true
+			}
+		}
+		// with soft head answers a Head() caller can sit in bifurcation holding the Syncer's incoming
+		// mutex; a second caller sharing its request would then block on that sync.Mutex (invisible to
+		// synctest, see above), so only one Head() call is outstanding at a time in that pass
+		if !a.SoftHead || !pendingHead {
+			evs = append(evs, Ev{K: "headcall"})
+		}
 	}
 	for _, d := range a.Advance {
 		evs = append(evs, Ev{K: "advance", D: d})
@@ -205,7 +234,7 @@ func exploreSync(t *testing.T, run *vk.Run, id string, cfg SCfg, depth int, a ev
 func TestC03(t *testing.T) {
 	run := vk.NewRun("C03", "model_checking")
 	defer run.Finish()
-	run.SetRule("breadth-first exploration of event histories on the real Syncer + real Store (scripted contract-abiding getter whose calls are held until an answer event, capturing subscriber): events = deliver {next, skip 2/3, duplicate, stale, forged adjacent, forged far (bifurcation), bad link, wrong chain, future, zero} | Head() call | answer of the oldest held getter call {full, prefix, error} | clock advance {40s (stale), 2h (expired)}; states deduplicated on (stored heights, pointers, pending ranges, sync state, held calls, spawned call status, clock); oracle in every state")
+	run.SetRule("breadth-first exploration of event histories on the real Syncer + real Store (scripted contract-abiding getter whose calls are held until an answer event, capturing subscriber): events = deliver {next, skip 2/3, duplicate, stale, forged adjacent, forged far (bifurcation), bad link, wrong chain, future, zero} | Head() call | answer of the oldest held getter call {full, prefix, error; trusted-head request in the lagging-peers pass: tip, soft+honest tip, soft+forged header 2 above the trusted head} | clock advance {40s (stale), 2h (expired)}; states deduplicated on (stored heights, pointers, pending ranges, sync state, held calls, spawned call status, clock); oracle in every state")
 	run.Assume("interleavings are explored at event granularity: between two events the bubble runs to quiescence; finer-grained interleavings of the gossip handler with the sync loop are the schedule explorer's part")
 	run.Assume("attacker has no validator keys (forged headers carry a foreign signature); getter serves only the honest chain")
 
@@ -248,6 +277,19 @@ func TestC03(t *testing.T) {
 		}
 		run.Set("states_"+cfg.String(), r.States)
 	}
+	// second pass: a Head() request towards lagging trusted peers is in flight while gossip runs ahead,
+	// and is then answered with a soft-failing (honest or forged) header; small alphabet, deeper
+	lag := SCfg{N: 9, S: 3, NetHead: 3, R: 2, Batch: 1, Hold: true, HeadAgeS: 100, FreshAfterS: true}
+	la := evAlpha{Head: true, Errors: true, SoftHead: true, Invalid: false}
+	ldepth := vk.Pick(run, 6, 8)
+	r := exploreSync(t, run, "C03", lag, ldepth, la, dl, func(w *SWorld, hist []Ev) { c03Oracle(run, "C03", w, lag, hist) })
+	states += r.States
+	trans += r.Transitions
+	if r.Capped {
+		run.NotExhaustive("time budget hit in " + lag.String())
+	}
+	run.Set("states_lagging_peers_"+lag.String(), r.States)
+	run.Set("depth_lagging_peers", ldepth)
 	run.AddStates(int64(states))
 	run.AddTransitions(int64(trans))
 }
